@@ -410,7 +410,7 @@ pub fn compare_units(got: &[Unit], want: &[XUnit], check_values: bool) -> Result
         let ctx = |m: String| format!("result unit {} (got {}, want {}): {}", i, g.brief(), w.brief(), m);
         match (g, w) {
             (Unit::Ok(o), XUnit::Ok { rows, id }) => {
-                if o.affected != *rows || o.last_id != *id {
+                if check_values && (o.affected != *rows || o.last_id != *id) {
                     return Err(ctx(format!("OK carries ({}, {}) but the shim reported ({}, {})", o.affected, o.last_id, rows, id)));
                 }
                 if (o.status & STATUS_MORE_RESULTS != 0) == last {
@@ -418,7 +418,7 @@ pub fn compare_units(got: &[Unit], want: &[XUnit], check_values: bool) -> Result
                 }
             }
             (Unit::Err(e), XUnit::Err { code, msg }) => {
-                if e.code != *code || &e.msg != msg {
+                if check_values && (e.code != *code || &e.msg != msg) {
                     return Err(ctx(format!("ERR carries code {} / {} message bytes, shim reported {} / {}", e.code, e.msg.len(), code, msg.len())));
                 }
                 if !last {
@@ -439,7 +439,7 @@ pub fn compare_units(got: &[Unit], want: &[XUnit], check_values: bool) -> Result
                         }
                     }
                     (None, Some(e), Some((code, msg))) => {
-                        if e.code != *code || &e.msg != msg {
+                        if check_values && (e.code != *code || &e.msg != msg) {
                             return Err(ctx("resultset-terminating ERR differs from finish_error arguments".into()));
                         }
                         if !last {
@@ -633,15 +633,15 @@ pub fn check_reply(e: &Expect, r: &Response, values: bool) -> Result<(), String>
             other => Err(format!("expected a single OK, got [{}]", other.iter().map(|u| u.brief()).collect::<Vec<_>>().join(", "))),
         },
         Expect::Err { code, msg } => match &r.units[..] {
-            [Unit::Err(e)] if e.code == *code && &e.msg == msg => Ok(()),
+            [Unit::Err(e)] if !values || (e.code == *code && &e.msg == msg) => Ok(()),
             other => Err(format!("expected ERR({}), got [{}]", code, other.iter().map(|u| u.brief()).collect::<Vec<_>>().join(", "))),
         },
         Expect::PrepareOk { id, params, cols } => match &r.units[..] {
             [Unit::PrepareOk { ok, params: gp, cols: gc }] => {
-                if ok.id != *id {
+                if values && ok.id != *id {
                     return Err(format!("PREPARE_OK statement id {} but the shim replied {}", ok.id, id));
                 }
-                if ok.nparams as usize != params.len() || ok.ncols as usize != cols.len() {
+                if values && (ok.nparams as usize != params.len() || ok.ncols as usize != cols.len()) {
                     return Err(format!("PREPARE_OK counts (params {}, cols {}) but the shim declared ({}, {})", ok.nparams, ok.ncols, params.len(), cols.len()));
                 }
                 if values {
